@@ -11,4 +11,9 @@ mc_Tms == {<<"d">>, <<"n">>, <<"t", 0>>, <<"t", 1>>}
 mc_TmsAll == {<<"d">>, <<"n">>, <<"t", 0>>, <<"t", 1>>, <<"t", -1>>}
 mc_OnePrefix == {<<>>}
 mc_OneKey == {<<49, 58, 97>>}
+mc_TimeoutNone == {<<"n">>, <<"t", 0>>}
+mc_Tms2 == {<<"d">>, <<"t", 1>>}
+mc_NoDjDev == {}
+mc_DevZero == {"D_default_zero_forever"}
+mc_DevVer == {"D_version_ignored"}
 ====
